@@ -140,6 +140,10 @@ func (fr *Frame) callValues(x ssa.Value, cc *ssa.CallCommon, fnv Value, args []V
 			return fr.callFunction(fn, f.Bindings, args, st, pc, pos, resT)
 		}
 		u.oblige(fr, "nil-deref", pos, "", pc, Ne(f.Opaque, IntLit(0)))
+	case Scalar:
+		if f.T.Sort == SInt { // function value read from memory
+			u.oblige(fr, "nil-deref", pos, "", pc, Ne(f.T, IntLit(0)))
+		}
 	}
 	return fr.havocCall("dynamic call "+sourceLine(u.eng.prog, pos), resT, args, st, pc)
 }
